@@ -19,12 +19,14 @@ package main
 import (
 	"bytes"
 	"fmt"
+	"math"
 	"math/big"
 	"os"
 	"os/exec"
 	"path/filepath"
 	"regexp"
 	"sort"
+	"strconv"
 	"strings"
 	"sync"
 
@@ -53,6 +55,10 @@ type c15Rpt struct {
 	RootKey string         `json:"root_key,omitempty"` // mode tagroot
 	// -divide_by (report.Options.Ratio = 1/DivideBy); 0 or 1 = none
 	DivideBy float64 `json:"divide_by,omitempty"`
+	// profile.DurationNanos (0 = none): the header then says "Duration: X, Total samples = Y (Z%)"
+	DurationNanos int64 `json:"duration_nanos,omitempty"`
+	// report.Options.NodeFraction (in-process top only): produces the "Dropped N nodes (cum <= L)" line
+	NodeFraction float64 `json:"node_fraction,omitempty"`
 }
 
 func (rp *c15Rpt) ratio() float64 {
@@ -63,7 +69,7 @@ func (rp *c15Rpt) ratio() float64 {
 }
 
 func c15rptProfile(from string, rp *c15Rpt) *profile.Profile {
-	p := &profile.Profile{SampleType: []*profile.ValueType{{Type: "space", Unit: from}}}
+	p := &profile.Profile{SampleType: []*profile.ValueType{{Type: "space", Unit: from}}, DurationNanos: rp.DurationNanos}
 	root := &profile.Function{ID: 100000, Name: "root"}
 	rl := &profile.Location{ID: 100000, Line: []profile.Line{{Function: root}}}
 	p.Function = append(p.Function, root)
@@ -115,6 +121,7 @@ func c15rptInProcess(from, to string, rp *c15Rpt) (out string, panicked string, 
 			OutputUnit:    to,
 			NumLabelUnits: units,
 			NodeCount:     100000,
+			NodeFraction:  rp.NodeFraction,
 		})
 		err = report.Generate(&buf, rpt, nil)
 	})
@@ -133,7 +140,7 @@ func c15rptCLI(pprof, dir string, id int, from, to string, rp *c15Rpt) (string, 
 		return "", err
 	}
 	f.Close()
-	args := []string{"-nodefraction=0", "-edgefraction=0", "-nodecount=100000", "-unit=" + to}
+	args := []string{fmt.Sprintf("-nodefraction=%v", rp.NodeFraction), "-edgefraction=0", "-nodecount=100000", "-unit=" + to}
 	if rp.DivideBy != 0 {
 		args = append(args, fmt.Sprintf("-divide_by=%v", rp.DivideBy))
 	}
@@ -300,6 +307,7 @@ type c15rptCtx struct {
 	rp       *c15Rpt
 	units    map[string]string // numeric tag key -> unit
 	failed   bool
+	partner  bool
 }
 
 func (x *c15rptCtx) viol(sig, what string) {
@@ -604,6 +612,7 @@ var c15traceVal = regexp.MustCompile(`^\s*(\S+)\s+(fn\d\d\d)\s*$`)
 var c15traceLbl = regexp.MustCompile(`^\s*(\S+):\s+(\S.*?)\s*$`)
 
 func (x *c15rptCtx) evalTraces(out string) {
+	x.evalHeader(out, x.to)
 	blocks := strings.Split(out, "-----------+-------------------------------------------------------")
 	seen := 0
 	for _, b := range blocks[1:] {
@@ -646,6 +655,178 @@ func (x *c15rptCtx) evalTraces(out string) {
 	}
 	if seen != len(x.rp.Samples) {
 		x.viol("C15/report/traces/samples-missing", fmt.Sprintf("%d of %d samples listed", seen, len(x.rp.Samples)))
+	}
+}
+
+// c15pctMatches: the printed percentage (without padding) against the exact ratio R (in percent),
+// by the rule of measurement.Percentage: "100%" within [99.95, 100.05], two decimals from 1% up,
+// two significant digits below.
+func c15pctMatches(s string, R *big.Rat) bool {
+	if !strings.HasSuffix(s, "%") || strings.HasPrefix(s, "-") {
+		return false
+	}
+	p, err := strconv.ParseFloat(strings.TrimSuffix(s, "%"), 64)
+	if err != nil || math.IsNaN(p) || math.IsInf(p, 0) {
+		return false
+	}
+	pr, _ := c15ratOfFloat(p)
+	near := func(b *big.Rat) bool {
+		return c15abs(new(big.Rat).Sub(R, b)).Cmp(new(big.Rat).Mul(b, new(big.Rat).Mul(c15tol, big.NewRat(8, 1)))) <= 0
+	}
+	lo, hi, one := big.NewRat(9995, 100), big.NewRat(10005, 100), big.NewRat(1, 1)
+	check := func(cl string) bool {
+		switch cl {
+		case "hundred":
+			return s == "100%"
+		case "fixed":
+			lim := new(big.Rat).Add(big.NewRat(5001, 1000000), new(big.Rat).Mul(R, c15tol))
+			return c15abs(new(big.Rat).Sub(pr, R)).Cmp(lim) <= 0
+		default:
+			if R.Sign() == 0 {
+				return p == 0
+			}
+			f, _ := R.Float64()
+			lim := new(big.Rat).SetFloat64(0.5001 * math.Pow(10, math.Floor(math.Log10(f))-1) * 1.0000001)
+			return lim != nil && c15abs(new(big.Rat).Sub(pr, R)).Cmp(lim) <= 0
+		}
+	}
+	class := "short"
+	switch {
+	case R.Cmp(lo) >= 0 && R.Cmp(hi) <= 0:
+		class = "hundred"
+	case R.Cmp(one) >= 0:
+		class = "fixed"
+	}
+	if check(class) {
+		return true
+	}
+	if near(lo) || near(hi) || near(one) {
+		return check("hundred") || check("fixed") || check("short")
+	}
+	return false
+}
+
+var c15durLine = regexp.MustCompile(`Duration: (\S+), Total samples = (\S+) ?(?:\(\s*([0-9.eE+-]+%)\))?`)
+var c15dropLine = regexp.MustCompile(`Dropped (\d+) nodes? \(cum <= (\S+?)\)`)
+
+// nsFactor: size of the sample unit in nanoseconds when it is a time unit.
+func (x *c15rptCtx) nsFactor() (*big.Rat, bool) {
+	rf := x.st.recognise(x.from)
+	if !rf.known {
+		return nil, false
+	}
+	ns := x.st.recognise("ns")
+	if !ns.known || ns.fam != rf.fam {
+		return nil, false
+	}
+	return new(big.Rat).Quo(rf.f, ns.f), true
+}
+
+func (x *c15rptCtx) totals() (sum, abssum int64) {
+	for _, s := range x.rp.Samples {
+		sum += s.Value
+		if s.Value < 0 {
+			abssum -= s.Value
+		} else {
+			abssum += s.Value
+		}
+	}
+	return
+}
+
+// evalHeader: the header line "Duration: X, Total samples = Y (Z%)".  X is the label of the duration,
+// Y the label of the (divided) total in the output unit U in force, Z = total expressed in
+// nanoseconds / DurationNanos — a property of the physical profile, whatever unit its samples are
+// expressed in; for sample units that are not time units no percentage may be printed.
+func (x *c15rptCtx) evalHeader(out, U string) {
+	if x.rp.DurationNanos == 0 {
+		return
+	}
+	m := c15durLine.FindStringSubmatch(out)
+	if m == nil {
+		x.viol("C15/report/"+x.rp.Mode+"/header/duration-line-missing", "no 'Duration: …, Total samples = …' line in:\n"+c15trunc(out))
+		return
+	}
+	_, abssum := x.totals()
+	x.label("header/duration", m[1], x.rp.DurationNanos, "nanoseconds", "auto")
+	x.valLabel("header/total-samples", m[2], abssum, U)
+	f, isTime := x.nsFactor()
+	if !isTime {
+		if m[3] != "" {
+			x.viol("C15/report/"+x.rp.Mode+"/header/percentage-of-non-time-total", fmt.Sprintf("a total in %q was related to the duration: %q", x.from, m[0]))
+		}
+		return
+	}
+	if abssum == 0 {
+		return
+	}
+	totalNs := new(big.Rat).Mul(new(big.Rat).SetInt64(abssum), f)
+	if totalNs.Cmp(new(big.Rat).SetInt(new(big.Int).Lsh(big.NewInt(1), 62))) >= 0 {
+		// assumption of the property: the total expressed in nanoseconds fits an int64 (146 years)
+		x.st.c.Res.Hit("rpt:header-total-beyond-int64-ns")
+		return
+	}
+	R := new(big.Rat).Quo(totalNs, new(big.Rat).SetInt64(x.rp.DurationNanos))
+	R.Abs(R)
+	R.Mul(R, big.NewRat(100, 1))
+	x.st.c.Res.Hit("rpt:header-percentage")
+	if m[3] == "" || !c15pctMatches(m[3], R) {
+		rf, _ := R.Float64()
+		x.viol("C15/report/"+x.rp.Mode+"/header/percentage-of-duration", fmt.Sprintf("header %q: the total is %s ns of a duration of %d ns = %v%%", m[0], totalNs.RatString(), x.rp.DurationNanos, rf))
+		return
+	}
+	if x.failed {
+		return
+	}
+	// model: Measure.percentage on (total in ns, duration)
+	if totalNs.IsInt() && totalNs.Num().IsInt64() {
+		rep := x.st.c.Drv.Ask(fmt.Sprintf("c15.pct %d %d", totalNs.Num().Int64(), x.rp.DurationNanos))
+		tk := &c15tr{toks: strings.Fields(rep)}
+		mr, okq := tk.rat()
+		x.st.c.Res.ModelCompared++
+		if tk.bad || !okq || !c15pctMatches(m[3], mr) {
+			x.failed = true
+			x.st.c.Disagree("C15/model-report/"+x.rp.Mode+"/header/percentage-of-duration", fmt.Sprintf("%s: header %q, model %s", x.cs.Text, m[0], c15trunc(rep)), "theorem percentage_abs / correspondence Measure.percentage ~ the header percentage of internal/report", x.cs)
+			return
+		}
+	}
+	// metamorphic: the same physical profile expressed in a finer time unit prints the same percentage
+	if x.rp.CLI || x.partner {
+		return
+	}
+	rf := x.st.recognise(x.from)
+	for _, u := range x.st.spec[rf.fam].units {
+		k := new(big.Rat).Quo(rf.f, u.f)
+		if !k.IsInt() || k.Cmp(big.NewRat(1, 1)) <= 0 || !k.Num().IsInt64() {
+			continue
+		}
+		kk := k.Num().Int64()
+		q := *x.rp
+		q.Samples = nil
+		okv := true
+		for _, s := range x.rp.Samples {
+			if s.Value > (1<<52)/kk || s.Value < -(1<<52)/kk {
+				okv = false
+			}
+			q.Samples = append(q.Samples, c15RptSample{Value: s.Value * kk, Labels: s.Labels})
+		}
+		if !okv || abssum > (1<<52)/kk {
+			continue
+		}
+		o2, pn, err := c15rptInProcess(u.names[0], x.to, &q)
+		if pn != "" || err != nil {
+			continue
+		}
+		m2 := c15durLine.FindStringSubmatch(o2)
+		if m2 == nil || m2[3] != m[3] {
+			got := "<none>"
+			if m2 != nil {
+				got = m2[0]
+			}
+			x.viol("C15/report/"+x.rp.Mode+"/header/percentage-depends-on-unit", fmt.Sprintf("the same profile with its samples expressed in %q (values × %d) prints %q, in %q it prints %q", u.names[0], kk, got, x.from, m[0]))
+			return
+		}
+		x.st.c.Res.Hit("rpt:header-percentage-metamorphic")
 	}
 }
 
@@ -700,14 +881,17 @@ func (x *c15rptCtx) evalTop(out string, kind string, rootKey string) {
 			nodes = append(nodes, node{f[0], f[3], f[5]})
 		}
 	}
-	var sum, abssum int64
-	for _, s := range x.rp.Samples {
-		sum += s.Value
-		if s.Value < 0 {
-			abssum -= s.Value
-		} else {
-			abssum += s.Value
+	sum, abssum := x.totals()
+	// nodes the report may drop: cum <= |total × nodeFraction|
+	cutoff := int64(0)
+	if x.rp.NodeFraction > 0 {
+		cutoff = int64(float64(abssum) * x.rp.NodeFraction)
+	}
+	dropped := func(v int64) bool {
+		if v < 0 {
+			v = -v
 		}
+		return x.rp.NodeFraction > 0 && v <= cutoff+1 // +1: float rounding of the product
 	}
 	leaf := map[string]node{}
 	for _, n := range nodes {
@@ -731,7 +915,7 @@ func (x *c15rptCtx) evalTop(out string, kind string, rootKey string) {
 		return true
 	})
 	for i := range x.rp.Samples {
-		if _, ok := leaf[fmt.Sprintf("fn%03d", i)]; !ok && (kind != "peek" || i == 0) {
+		if _, ok := leaf[fmt.Sprintf("fn%03d", i)]; !ok && (kind != "peek" || i == 0) && !dropped(x.rp.Samples[i].Value) {
 			x.viol("C15/report/"+x.rp.Mode+"/rows-missing", fmt.Sprintf("fn%03d is not listed in:\n%s", i, c15trunc(out)))
 			return
 		}
@@ -758,8 +942,32 @@ func (x *c15rptCtx) evalTop(out string, kind string, rootKey string) {
 			x.valLabel("edge", e.w, x.rp.Samples[i].Value, U)
 		}
 	}
+	x.evalHeader(out, U)
+	if m := c15dropLine.FindStringSubmatch(out); m != nil {
+		x.st.c.Res.Hit("rpt:dropped-line")
+		x.valLabel("dropped-cutoff", m[2], cutoff, U)
+	}
 	if m := c15legend.FindStringSubmatch(out); m != nil {
 		x.valLabel("legend-total", m[3], abssum, U)
+		// "accounting for S, P of T": S = the shown flat values, P their share of the total
+		shown := int64(0)
+		for i, s := range x.rp.Samples {
+			if _, ok := leaf[fmt.Sprintf("fn%03d", i)]; ok || kind == "peek" {
+				shown += s.Value
+			}
+		}
+		if kind != "peek" {
+			x.valLabel("legend-shown", m[1], shown, U)
+			if abssum != 0 {
+				R := new(big.Rat).Quo(new(big.Rat).SetInt64(shown), new(big.Rat).SetInt64(abssum))
+				R.Abs(R)
+				R.Mul(R, big.NewRat(100, 1))
+				if !c15pctMatches(m[2], R) {
+					rf, _ := R.Float64()
+					x.viol("C15/report/"+x.rp.Mode+"/legend-percentage", fmt.Sprintf("%q: the shown nodes are %v%% of the total", m[0], rf))
+				}
+			}
+		}
 	} else {
 		x.viol("C15/report/"+x.rp.Mode+"/legend-missing", "no 'Showing nodes accounting for' line")
 	}
@@ -835,6 +1043,12 @@ func c15rptText(cs c15Case) string {
 	}
 	if rp.DivideBy != 0 {
 		fmt.Fprintf(&b, ", -divide_by=%v", rp.DivideBy)
+	}
+	if rp.DurationNanos != 0 {
+		fmt.Fprintf(&b, ", DurationNanos=%d", rp.DurationNanos)
+	}
+	if rp.NodeFraction != 0 {
+		fmt.Fprintf(&b, ", nodefraction=%v", rp.NodeFraction)
 	}
 	b.WriteString("; samples")
 	for _, s := range rp.Samples {
@@ -946,11 +1160,29 @@ func (st *c15State) genRpt(r *Rng) (from, to string, rp *c15Rpt) {
 	if r.Chance(65) {
 		rp.DivideBy = []float64{1024, 1000, 0.001, 3, 60, 0.5, 1e6, 1, 1048576, 7}[r.Intn(10)]
 	}
+	// time-valued sample types in every time unit and spelling, with a profile duration that is
+	// not a whole number of that unit (or is smaller than one unit): the header relates the total to it
+	small := false
+	if nsr := st.recognise("ns"); nsr.known && r.Chance(45) {
+		tf := st.spec[nsr.fam]
+		tu := tf.units[r.Intn(len(tf.units))]
+		from = tu.names[r.Intn(len(tu.names))]
+		if r.Chance(25) && len(from) >= 2 {
+			from += "s"
+		}
+		small = r.Chance(70)
+	}
+	if r.Chance(12) {
+		rp.NodeFraction = []float64{0.05, 0.2}[r.Intn(2)]
+	}
 	ns := 2 + r.Intn(5)
 	for i := 0; i < ns; i++ {
 		s := c15RptSample{Value: int64(1 + r.Intn(4000))}
 		for k := r.Intn(3); k > 0; k-- {
 			s.Value *= int64(1 + r.Intn(2000))
+		}
+		if small {
+			s.Value = int64(1 + r.Intn(4))
 		}
 		// one key per sample mostly (coinciding values then live in DIFFERENT samples, whose order
 		// is under our control), sometimes two or three keys in one sample
@@ -973,6 +1205,32 @@ func (st *c15State) genRpt(r *Rng) (from, to string, rp *c15Rpt) {
 		}
 		rp.Samples = append(rp.Samples, s)
 	}
+	if r.Chance(70) {
+		var total int64
+		for _, s := range rp.Samples {
+			total += s.Value
+		}
+		unitNs := big.NewRat(1, 1)
+		if rc, nsr := st.recognise(from), st.recognise("ns"); rc.known && nsr.known && rc.fam == nsr.fam {
+			unitNs = new(big.Rat).Quo(rc.f, nsr.f)
+		}
+		// duration = unit × m/den with m/den no whole number (den ∈ {2,3,4,8}), from below one unit to a few totals
+		den := []int64{2, 3, 4, 8}[r.Intn(4)]
+		m := int64(1 + r.Intn(int(min(4*total*den, 1<<30))))
+		if m%den == 0 {
+			m++
+		}
+		if r.Chance(15) {
+			m = int64(1 + r.Intn(int(den-1))) // smaller than one unit
+		}
+		d := new(big.Rat).Mul(unitNs, big.NewRat(m, den))
+		dn := new(big.Int).Quo(d.Num(), d.Denom())
+		if dn.IsInt64() && dn.Int64() > 0 {
+			rp.DurationNanos = dn.Int64()
+		} else {
+			rp.DurationNanos = 1 + int64(r.Intn(1000))
+		}
+	}
 	return from, to, rp
 }
 
@@ -990,6 +1248,9 @@ func (st *c15State) reportStream(r *Rng) {
 			for _, rev := range []bool{false, true} {
 				q := *rp
 				q.Mode, q.Reverse = mode, rev
+				if mode == "peek" {
+					q.NodeFraction = 0 // the peeked function must not be trimmed away
+				}
 				cs := c15Case{Kind: "rpt", From: c15hex(from), To: c15hex(to), Rpt: &q}
 				nt := st.rptCase(cs)
 				c.Res.Count(c15canon(cs), nt)
@@ -1010,6 +1271,9 @@ func (st *c15State) reportStream(r *Rng) {
 			q.CLI, q.Mode, q.Reverse = true, modes[(k/4)%len(modes)], (k/4)%2 == 1
 			if q.Mode == "tagroot" {
 				q.RootKey = "taga"
+			}
+			if q.Mode == "peek" {
+				q.NodeFraction = 0
 			}
 			jobs = append(jobs, cliJob{c15Case{Kind: "rpt", From: c15hex(from), To: c15hex(to), Rpt: &q}})
 		}
